@@ -7,7 +7,10 @@
 import itertools
 
 from pyvc.api import *
-from contracts.graph import G, M, N, SHAPES, SHAPES_C01, TOTAL, install_graph_models
+from contracts.graph import G, M, N, SHAPES, SHAPES_C01, TOTAL, install_graph_models, shape_pit
+
+# the caching-protocol units also run on a graph with a caching node that is NEITHER a Calc NOR a Dist (the legacy PIT node derives from Node directly)
+SHAPES_CACHE = {**SHAPES_C01, "pit": shape_pit}
 
 # ------------------------------------------------------------------------------------------ (1)
 
@@ -445,7 +448,7 @@ def history_unit(shape, depth):
             return PyFn(f, label)
 
         g = G(ip)
-        model0 = g.build(*SHAPES_C01[shape](g))
+        model0 = g.build(*SHAPES_CACHE[shape](g))
         # instrument: count evaluations per caching node
         for nm, nd in model0.f["_nodes"].items():
             if nd.clsname == "Calc" and not nm.startswith("_model"):
@@ -586,7 +589,7 @@ def any_flags_unit(shape):
         install_graph_models(ip)
         counting = {"on": False, "n": {}}
         g = G(ip)
-        model0 = g.build(*SHAPES_C01[shape](g))
+        model0 = g.build(*SHAPES_CACHE[shape](g))
         caching = [nm for nm, nd in model0.f["_nodes"].items() if nd.clsname in ("Calc", "Dist")]
         import itertools
         subsets = [(a,) for a in caching] + list(itertools.combinations(caching, 2)) + [tuple(caching)]
@@ -619,7 +622,7 @@ def any_flags_unit(shape):
     return u
 
 
-for _s in SHAPES_C01:
+for _s in SHAPES_CACHE:
     any_flags_unit(_s)
 
 
@@ -664,7 +667,7 @@ def u_failed_assignment(ip):
 import os as _os  # noqa: E402
 
 _DEPTH = 3 if _os.environ.get("VERIF_TIER", "quick") != "thorough" else 4
-for _s in SHAPES_C01:
+for _s in SHAPES_CACHE:
     history_unit(_s, _DEPTH)
 
 
